@@ -353,10 +353,11 @@ async def _scenario(entry, nstmt, read_only, faults, initial):
 
 
 def retryable(cls, code):
-    """the property's own list: deadlock 1213, lock wait timeout 1205 (InternalError), lost connection 2013 / cannot
-    connect 2003, too many connections 1040 (OperationalError)"""
+    """the property's own list: deadlock 1213, lock wait timeout 1205, lost connection 2013 / cannot connect 2003, too many
+    connections 1040, in the exception class the driver reports them with: OperationalError for all five with the pinned
+    PyMySQL 1.x (server errors >= 1000 it does not list are OperationalError), and InternalError for 1205 with PyMySQL < 0.10"""
     if cls == 0:
-        return code == 1040 or code == 1213 or code == 2003 or code == 2013
+        return code == 1040 or code == 1205 or code == 1213 or code == 2003 or code == 2013
     if cls == 1:
         return code == 1205
     return False
